@@ -14,7 +14,7 @@ STUBS = ['Message::factory := abstract message (models/sess_msg.c): yields the h
          'std::chrono::system_clock::now := arbitrary non-decreasing instants', 'pthread_spin_* := uncontended; clock_nanosleep := returns at once; Connection::stop := recorded',
          'std::string out-of-line members, operator new, exceptions (typeinfo ancestry): models/cxx.c']
 # loops of the models and of the real code that every harness of this world can reach (bounds: typeinfo table rows, catch clauses, literal/string lengths, digits)
-US = ['vf_copy.0:18', 'vf_ti_match.0:140', '__vf_landing.0:6', 'x_strlen.0:64', 'x_memcmp.0:4', '_ZL4slenPKc.0:4', '_ZN4FIX89fast_atoiIjEET_PKcc.0:10',
+US = ['vf_copy.0:42', 'vf_ti_match.0:140', '__vf_landing.0:6', 'x_strlen.0:64', 'x_memcmp.0:4', '_ZL4slenPKc.0:4', '_ZN4FIX89fast_atoiIjEET_PKcc.0:12', 'digits_value.0:11', 'raw_seq.0:11', 'digits_of.0:11',
       'x__ZNKSt7__cxx1112basic_stringIcSt11char_traitsIcESaIcEE4findEPKcmm.0:13', 'x__ZNKSt7__cxx1112basic_stringIcSt11char_traitsIcESaIcEE4findEPKcmm.1:5']
 ASSUME = ['operator new never fails', 'the session has no persister, no loggers and no SessionConfig (_persist, _logger, _plogger, _sf null) unless a harness says otherwise',
           'Session/Connection objects are not constructed (constructors start threads): typed static storage with exactly the members read by the code under test set through compiled setters',
